@@ -26,7 +26,7 @@ import (
 )
 
 type Step struct {
-	Op     string  `json:"op"`     // batch | batchstart | exitsup | disable | enable | advance | startchild
+	Op     string  `json:"op"`     // batch | batchstart | exitsup | disablefault | disable | enable | advance | startchild
 	Faults [][]any `json:"faults"` // [[index(1-based), reason], ...]
 	I      int     `json:"i"`
 	Ms     int64   `json:"ms"`
@@ -572,6 +572,58 @@ func (r *Runner) Run(scn *Scenario) ([]Line, error) {
 				}
 				close(release)
 				ln.Faults = append(ln.Faults, []any{i, normReason(reason)})
+			}
+		case "disablefault":
+			// child I is busy in a callback when DisableChild(I) is called; a sibling dies before I has gone; I is the last one the
+			// supervisor waits for.  The outcome is that of the two events one after the other.
+			if !supAlive() || sofo || len(step.Faults) != 1 {
+				continue
+			}
+			{
+				j := int(step.Faults[0][0].(float64))
+				reason := step.Faults[0][1].(string)
+				pi, oki := before[step.I]
+				pj, okj := before[j]
+				if !oki || !okj || j == step.I {
+					continue
+				}
+				entered, release := make(chan struct{}), make(chan struct{})
+				r.Node.Send(pi, gated.Cmd{Fn: func(*gated.Scripted) error { close(entered); <-release; return nil }})
+				select {
+				case <-entered:
+				case <-time.After(time.Second):
+				}
+				name := gen.Atom(fmt.Sprintf("c%d", step.I) + suffix)
+				d := doMsg{done: make(chan error, 1), fn: func(s *gsup) error { return s.DisableChild(name) }}
+				if err := r.Node.Send(supPid, d); err == nil {
+					select {
+					case e := <-d.done:
+						if e != nil {
+							ln.Res = e.Error()
+						} else {
+							ln.Res = "ok"
+						}
+					case <-time.After(2 * time.Second):
+						ln.Res = "hung"
+					}
+				}
+				faulted[j] = true
+				label := fmt.Sprintf("c%d", j)
+				want := termCount[label] + 1
+				switch reason {
+				case "kill":
+					r.Node.Kill(pj)
+				default:
+					rr := reason
+					r.Node.Send(pj, gated.Cmd{Fn: func(*gated.Scripted) error { return errors.New("R:" + rr) }})
+				}
+				deadline := time.Now().Add(2 * time.Second)
+				for time.Now().Before(deadline) && w.Count(label, "term") < want {
+					time.Sleep(50 * time.Microsecond)
+				}
+				time.Sleep(3 * time.Millisecond)
+				close(release)
+				ln.Faults = append(ln.Faults, []any{j, normReason(reason)})
 			}
 		case "exitsup":
 			// the supervisor is told to stop (exit signal with reason Why) while child I is busy in a callback which it then leaves with
